@@ -368,7 +368,11 @@ def finish(res, confirm=True, custom_replay=None):
           "violations": len(violations)}
     with open(os.path.join(EVIDENCE_DIR, res.prop + ".json"), "w") as fh:
         json.dump(ev, fh, indent=1, default=str)
+    printed = set()
     for known, f in res.known_hits:
+        if known.get("signature") in printed:
+            continue
+        printed.add(known.get("signature"))
         print("KNOWN-FINDING: property=%s %s" % (res.prop, known.get("what", known.get("signature"))))
     for e in res.harness_errors:
         log("harness error:", e)
